@@ -649,6 +649,14 @@ func seedFor(t *rapid.T, name string) []byte {
 		}
 	}
 	switch name {
+	case "gtab.Read/GSUB", "gtab.Read/GPOS":
+		// shared sub-tables (shared_test.go): the other recorded finding of these decoders
+		if stats.IsListed("C02", "reencode-shared:"+name) && rapid.IntRange(0, 99).Draw(t, "sharedSeed") == 53 {
+			stats.Label("layout", "seed:shared-sub-tables")
+			return sharedSeed(t, name)
+		}
+	}
+	switch name {
 	case "sfnt.Read/ReaderAt", "sfnt.Read/Reader", "header.Read":
 		if rapid.IntRange(0, 9).Draw(t, "goregular") == 0 {
 			return goregular.TTF
